@@ -32,6 +32,17 @@ where
         })
     }
 
+    /// (verification hook) number of queued elements and of queued unblock markers
+    #[cfg(tiny_http_verif)]
+    pub fn verif_counts(&self) -> (usize, usize) {
+        let queue = self.queue.lock().unwrap();
+        let markers = queue
+            .iter()
+            .filter(|c| matches!(c, Control::Unblock))
+            .count();
+        (queue.len() - markers, markers)
+    }
+
     /// Pushes an element to the queue.
     pub fn push(&self, value: T) {
         let mut queue = self.queue.lock().unwrap();
